@@ -46,6 +46,7 @@ func runSeq(k int) {
 	rng := hk.Rng("c18", id)
 	res := &result{}
 	pm := markPanics()
+	panicsWithBuffer.Store(false)
 	nLocal := 1 + rng.Intn(3)
 	nRemote := []int{0, 1, 2}[rng.Intn(3)]
 	if nRemote > 0 && !ensureConn() {
@@ -142,8 +143,6 @@ func runSeq(k int) {
 			if s.a.remote {
 				sfx = "-remote"
 			}
-			// walk both lists
-			i, j := 0, 0
 			seen := map[int]int{}
 			for _, g := range got {
 				seen[g]++
@@ -176,7 +175,6 @@ func runSeq(k int) {
 					hk.Stat("delivered_while_not_subscribed", 1)
 				}
 			}
-			_, _ = i, j
 		}
 	}
 
@@ -220,6 +218,27 @@ func runSeq(k int) {
 				res.violate("missing-event-start", "after %s (first live subscriber): Start=%d Stop=%d (trace %v)", step, st, sp, trace)
 			}
 		case "last":
+			if st-sp != 0 {
+				// a repaired framework may account a dead remote subscriber asynchronously: wait for the Stop or
+				// for the structural witness that nothing is in flight and no framework goroutine can still act
+				count := func() int {
+					a, b := 0, 0
+					for _, x := range owner.notesFor(m.name) {
+						if x.Start {
+							a++
+						} else {
+							b++
+						}
+					}
+					st, sp = a, b
+					return a - b
+				}
+				if !hk.WaitUntil(5*time.Second, func() bool { return count() == 0 || (netQuiescent() && owner.idle()) }) {
+					res.inconclusive("watchdog: neither MessageEventStop nor network quiescence after " + step)
+					return
+				}
+				count()
+			}
 			if st-sp != 0 {
 				res.violate("eventstop-missing-after-subscriber-loss", "after %s: the last live subscriber unsubscribed (an earlier subscriber had terminated without unsubscribing) but producer has Start=%d Stop=%d (trace %v)", step, st, sp, trace)
 			}
@@ -306,10 +325,6 @@ func runSeq(k int) {
 			}
 			fid++
 			var errs []error
-			pubIdx := 0
-			if p == delegate {
-				pubIdx = 1
-			}
 			hasRemote := anyRemote(subActors())
 			desc = fmt.Sprintf("publish(%s,%d..%d)", who, m.seq+1, m.seq+cnt)
 			if !p.publish(cPub{Name: m.name, Token: m.token, From: m.seq + 1, N: cnt, Log: m.log, Errs: &errs, Fence: hasRemote, FID: fid}) {
@@ -319,7 +334,7 @@ func runSeq(k int) {
 			if hasRemote {
 				fences = []Fence{{Pub: 0, ID: fid}}
 			}
-			_ = pubIdx
+
 			for i, e := range errs {
 				if e != nil {
 					res.violate("publish-error-with-valid-token", "SendEvent #%d by %s with the registration token returned %v", m.seq+1+i, who, e)
@@ -491,7 +506,6 @@ func runSeq(k int) {
 			case "exit":
 				owner.tell(cDie{Reason: errors.New("c18 owner exit")})
 			case "panic":
-				expectedPanics.Add(1)
 				owner.tell(cPanic{})
 			}
 			if !hk.WaitUntil(10*time.Second, func() bool { return owner.termed.Load() && owner.inst.Quiet() }) {
